@@ -1,6 +1,7 @@
 package main
 
 import (
+	"os"
 	"fmt"
 	"regexp"
 	"strings"
@@ -118,6 +119,9 @@ func checkC06(r *Run) {
 
 	// (a) erasure
 	nprog := r.pick(4000, 60000)
+	if os.Getenv("VERIF_C06_PART") == "jsts" {
+		nprog = 0 // development: only the js-vs-ts section
+	}
 	parallel(nprog, 0, func(i int) {
 		rng := newRng(r.Seed, fmt.Sprint("c06erase", i))
 		tsx := i%4 == 3
@@ -254,6 +258,9 @@ func checkC06(r *Run) {
 
 	// (c) runtime constructs
 	nrt := r.pick(4000, 60000)
+	if os.Getenv("VERIF_C06_PART") == "jsts" {
+		nrt = 0
+	}
 	parallel(nrt, pool.Size(), func(i int) {
 		rng := newRng(r.Seed, fmt.Sprint("c06rt", i))
 		g := &tsrun{rng: rng}
